@@ -110,6 +110,17 @@ def run(ctx):
     open(os.path.join(wd0, "R9.tla"), "w").write(open(os.path.join(core.SPEC, "ReaderOpen.tla")).read().replace("MODULE ReaderOpen", "MODULE R9"))
     r9 = core.tlc("R9", "R9.cfg", workers=4, cwd=wd0, timeout=600)
     ctx.cov["regression_FixF9_FALSE_fails"] = bool(r9.inv_violated)
+    # unbounded: the same reads at the real sizes with 64-bit wrap-around arithmetic, every file size and field value (Apalache)
+    od = ctx.sub("apalache")
+    res = {}
+    for tag, cinit, want in [("repaired_tree", "CInit2", "ok"), ("first_F9_repair", "CInit1", "violated"), ("pinned_tree", "CInit0", "violated")]:
+        r_ = core.apalache("ReaderOpenU", cinit, "Init", "SafeInv", 0, os.path.join(od, tag))
+        res[tag] = r_
+        if r_.startswith("unavailable"):
+            ctx.notes.append("Apalache run %s of ReaderOpenU not available: %s" % (tag, r_))
+        elif r_ != want:
+            raise core.Infra("ReaderOpenU: Apalache run %s gave %s, expected %s (specification problem)" % (tag, r_, want))
+    ctx.cov["unbounded_all_sizes_and_fields"] = res
     cs = cases(ctx)
     wd = ctx.sub("files")
     lines, meta = [], []
